@@ -137,7 +137,7 @@ func addShapes(r *rand.Rand, s string) string {
 func applyShapes(g *guarded, sh []shp) {
 	for i, x := range sh {
 		if x.has {
-			g.full[i].Shape = &traits.ElectricMode_Segment_Fixed{Fixed: float32(x.v)}
+			g.full[i].Shape = &traits.ElectricMode_Segment_Fixed{Fixed: magVal(x.v)}
 			g.clone[i] = proto.Clone(g.full[i]).(*traits.ElectricMode_Segment)
 		}
 	}
@@ -342,6 +342,7 @@ func (c scase) monitorShaped(m *lib.Monitor, o outcome) {
 		for _, b := range breakpoints(l) {
 			pts = append(pts, b, b+d)
 		}
+		pts = append(pts, realBps(o.segs)...)
 		for _, t := range samplePoints(pts) {
 			var want int64
 			if t >= 0 {
@@ -364,10 +365,7 @@ func (c scase) monitorShaped(m *lib.Monitor, o outcome) {
 			st = mo.start
 		}
 		h := st + horizon(mo.segs) + abs(d) + 3
-		for y := st - abs(d) - 2; y <= h+1; y++ {
-			if y == h+1 {
-				y = h + 1000
-			}
+		for _, y := range walk(st-abs(d)-2, h, append(append(offsetAll(breakpoints(mo.segs), st), offsetAll(breakpoints(mo.segs), st+d)...), realModeBps(0, o.mode)...)...) {
 			want := consAt(mo.segs, mo.shapes, y-d-st)
 			if !mo.hasStart && y < 0 {
 				want = 0
@@ -398,10 +396,7 @@ func (c scase) monitorShaped(m *lib.Monitor, o outcome) {
 		if x < lo {
 			lo = x - 2
 		}
-		for y := lo; y <= h+1; y++ {
-			if y == h+1 {
-				y = h + 1000
-			}
+		for _, y := range walk(lo, h, append(append(append(offsetAll(breakpoints(mo.segs), st), x), realModeBps(x, o.mBefore)...), realModeBps(x, o.mAfter)...)...) {
 			want := consAt(mo.segs, mo.shapes, y-st)
 			part, what := o.mAfter, "after"
 			if y < x {
